@@ -17,7 +17,7 @@ Definition qeqb (a b : Qc) : bool := if Qc_eq_dec a b then true else false.
     rational values of pi (to 50 digits), physcons::c and Impedance::Z0 used by the validators *)
 Definition EQ (piq cvq z0q : Qc) : Leaves QcF :=
   mkLeaves QcF (fun _ _ => 0%Qc) (fun _ => 0%Qc) (fun _ => 0%Qc) qabs piq cvq z0q qlt qle qeqb cq_add
-           (fun _ _ _ _ => []).
+           (fun _ _ _ _ _ => cq0).
 
 Definition gen_sum_q (l r : list cq) : list cq := add_assign QcF (EQ 1 1 1) l r.
 Definition gen_const_q (n : Z) (z : cq) : list cq := ConstImpedance_ctor QcF (EQ 1 1 1) n 0%Qc z.
